@@ -4,6 +4,7 @@ package main
 // really compiled code, result classification, known-findings matching and evidence.
 
 import (
+	"go/ast"
 	"bytes"
 	"context"
 	"encoding/json"
@@ -23,6 +24,7 @@ type replayer struct {
 	scratch string
 	bins    map[string]string // dir -> test binary
 	buildErr map[string]string
+	P       *Program
 }
 
 func newReplayer(prop, tier string, hfs []*HarnessFile) *replayer {
@@ -51,6 +53,15 @@ func (r *replayer) binary(dir string) (string, error) {
 		pkgName = h.PkgName
 		for _, f := range h.Funcs {
 			names = append(names, f.Name)
+		}
+	}
+	// function stubs: natively the body of the stubbed repo function is replaced (in an
+	// overlay copy of its source file, regenerated from /repo's current source) by a call
+	// to the zzvf twin, so that the replay follows the same virtual environment
+	if r.P != nil {
+		if err := r.stubOverlay(ov); err != nil {
+			r.buildErr[dir] = err.Error()
+			return "", err
 		}
 	}
 	var tb strings.Builder
@@ -505,6 +516,20 @@ func cmdReplay(args []string) int {
 	}
 	rep := newReplayer(rf.Property, rf.Tier, hfs)
 	defer rep.cleanup()
+	needP := false
+	for _, h := range hfs {
+		if len(h.Stubs) > 0 {
+			needP = true
+		}
+	}
+	if needP {
+		P, _, err := loadProgram(hfs)
+		if err != nil {
+			fmt.Fprintln(os.Stderr, err)
+			return 2
+		}
+		rep.P = P
+	}
 	bin, err := rep.binary(rf.Dir)
 	if err != nil {
 		fmt.Fprintln(os.Stderr, err)
@@ -520,4 +545,67 @@ func cmdReplay(args []string) int {
 	}
 	fmt.Printf("not reproduced: %s\n", why)
 	return 0
+}
+
+func (r *replayer) stubOverlay(ov map[string]string) error {
+	type edit struct {
+		lo, hi int
+		text   string
+	}
+	byFile := map[string][]edit{}
+	for _, h := range r.hfs {
+		for _, st := range h.Stubs {
+			i := strings.LastIndex(st[0], ".")
+			if i < 0 {
+				return fmt.Errorf("bad stub name %s", st[0])
+			}
+			pkg := r.P.prog.ImportedPackage(st[0][:i])
+			if pkg == nil {
+				return fmt.Errorf("stub: package %s not loaded", st[0][:i])
+			}
+			fn := pkg.Func(st[0][i+1:])
+			if fn == nil || fn.Syntax() == nil {
+				return fmt.Errorf("stub: function %s not found", st[0])
+			}
+			fd, ok := fn.Syntax().(*ast.FuncDecl)
+			if !ok || fd.Body == nil {
+				return fmt.Errorf("stub: %s has no body", st[0])
+			}
+			lo := r.P.fset.Position(fd.Body.Lbrace)
+			dup := false
+			for _, e := range byFile[lo.Filename] {
+				if e.lo == lo.Offset {
+					dup = true
+				}
+			}
+			if !dup {
+				// keep the original body (its imports stay used); the stub call comes first
+				byFile[lo.Filename] = append(byFile[lo.Filename], edit{lo.Offset, lo.Offset + 1, "{ if zzvfstub.Native() { return zzvfstub." + st[1] + "() }; "})
+			}
+		}
+	}
+	for file, edits := range byFile {
+		src, err := os.ReadFile(file)
+		if err != nil {
+			return err
+		}
+		sort.Slice(edits, func(i, k int) bool { return edits[i].lo > edits[k].lo })
+		out := string(src)
+		for _, e := range edits {
+			out = out[:e.lo] + e.text + out[e.hi:]
+		}
+		// add the import right after the package clause
+		pi := strings.Index(out, "\npackage ")
+		if strings.HasPrefix(out, "package ") {
+			pi = -1
+		}
+		nl := strings.Index(out[pi+1:], "\n") + pi + 1
+		out = out[:nl+1] + "import zzvfstub \"github.com/whatap/golib/zzvf\"\n" + out[nl+1:]
+		tmp := filepath.Join(r.scratch, "stub_"+strings.ReplaceAll(strings.TrimPrefix(file, "/"), "/", "_"))
+		if err := os.WriteFile(tmp, []byte(out), 0644); err != nil {
+			return err
+		}
+		ov[file] = tmp
+	}
+	return nil
 }
